@@ -126,7 +126,8 @@ structure Field where
   subName : Option String       -- `Attributes.sub_name`
   ty : Nat                      -- class id of the member type
   isAttr : Bool                 -- `XmlAttribute(...)`
-  inner : Nat                   -- for attributes: id of `v.type`
+  isData : Bool                 -- `XmlData(...)`: the text content of the element (`_xml_tag_body_as`)
+  inner : Nat                   -- for attributes and XmlData: id of `v.type`
   use : Option String           -- for attributes: `_use`
   minOccurs : Option String     -- written form, `none` when equal to 1
   maxOccurs : Option String     -- written form (`unbounded`), `none` when equal to 1
@@ -159,6 +160,7 @@ structure Meth where
   outHeader : Option (List Nat)
   faults : List Nat
   portType : Option String
+  doc : Option String           -- `method.doc`: the docstring of the user function
   deriving Repr, DecidableEq
 
 structure Svc where
@@ -323,6 +325,7 @@ structure TypeDef where
   elems : List Particle
   attrs : List AttrDecl
   enums : List String
+  dataBases : List QN         -- `xs:simpleContent/xs:extension/@base` of XmlData members
   deriving Repr, DecidableEq
 
 structure ElemDecl where
@@ -385,23 +388,34 @@ def attrTrace (I : IState) (fs : List Field) : List String :=
 
 /-- the `xs:element` members written by the member loop of `complex_add` (they do not depend on the state) -/
 def particlesOf (I : IState) (fs : List Field) : List Particle :=
-  (fs.filter (fun f => !f.isAttr)).map fun f =>
+  (fs.filter (fun f => !f.isAttr && !f.isData)).map fun f =>
     ⟨f.subName.getD f.name, typeQN (I.cls f.ty), f.minOccurs, f.maxOccurs, f.nillable⟩
+
+/-- the `XmlData` members: their type is the base of an `xs:simpleContent` extension -/
+def dataBasesOf (I : IState) (fs : List Field) : List QN :=
+  (fs.filter (·.isData)).map fun f => typeQN (I.cls f.inner)
 
 /-- the schema node of a class: `xs:simpleType` (restriction, enumeration) or `xs:complexType` -/
 def nodeOf (I : IState) (c : Cls) : TypeDef :=
   match c.kind with
-  | .simple => ⟨c.tn, false, c.ext.map (fun b => typeQN (I.cls b)), [], [], c.enums⟩
-  | .enum => ⟨c.tn, false, some ⟨"http://www.w3.org/2001/XMLSchema", "string"⟩, [], [], c.enums⟩
-  | _ => ⟨c.tn, true, c.ext.map (fun b => typeQN (I.cls b)), particlesOf I c.fields, attrDecls I c.fields, []⟩
+  | .simple => ⟨c.tn, false, c.ext.map (fun b => typeQN (I.cls b)), [], [], c.enums, []⟩
+  | .enum => ⟨c.tn, false, some ⟨"http://www.w3.org/2001/XMLSchema", "string"⟩, [], [], c.enums, []⟩
+  | _ => ⟨c.tn, true, c.ext.map (fun b => typeQN (I.cls b)), particlesOf I c.fields, attrDecls I c.fields, [],
+          dataBasesOf I c.fields⟩
 
 /-- the state effects of the member loop of `complex_add`: `document.add(v, tags)` for every element member,
     followed by the prefix request of its type name; `rec` is `XmlSchema.add` -/
 def fieldsLoop (I : IState) (rec : Nat → SSt → SSt) : List Field → SSt → SSt
   | [], st => st
   | f :: fs, st =>
-    if f.isAttr then fieldsLoop I rec fs st else
+    if f.isAttr || f.isData then fieldsLoop I rec fs st else
       fieldsLoop I rec fs ((rec f.ty st).touch (I.cls f.ty).ns)
+
+/-- the `_xml_tag_body_as` loop of `complex_add`: `document.add(xtba_type.type, tags)`, then the base reference -/
+def dataLoop (I : IState) (rec : Nat → SSt → SSt) : List Field → SSt → SSt
+  | [], st => st
+  | f :: fs, st =>
+    if f.isData then dataLoop I rec fs ((rec f.inner st).touch (I.cls f.inner).ns) else dataLoop I rec fs st
 
 def SSt.touchOpt (st : SSt) (I : IState) (ext : Option Nat) : SSt :=
   match ext with
@@ -424,7 +438,7 @@ def addCls (I : IState) : Nat → Nat → SSt → SSt
         addType (st.touch "http://www.w3.org/2001/XMLSchema") c (nodeOf I c)
       | .complex =>
         -- complex_add: base, members, attributes, add_complex_type, then the element of the type
-        let st := fieldsLoop I (addCls I fuel) c.fields (st.touchOpt I c.ext)
+        let st := fieldsLoop I (addCls I fuel) c.fields (dataLoop I (addCls I fuel) c.fields (st.touchOpt I c.ext))
         let st := addType { st with trace := st.trace ++ attrTrace I c.fields } c (nodeOf I c)
         addElement I.tns (st.touch c.ns) c ⟨c.elemName, typeQN c⟩
 
@@ -518,6 +532,7 @@ structure OpFault where
 
 structure Op where
   name : String
+  doc : Option String           -- `wsdl:documentation`
   paramOrder : String
   inName : String
   inMsg : QN
@@ -621,7 +636,7 @@ def messagesLoop (I : IState) : List Meth → List Msg × List String → List M
 def mkOp (I : IState) (m : Meth) : Op :=
   let ci := I.cls m.inMsg
   let co := I.cls m.outMsg
-  ⟨m.opName, ci.elemName, ci.elemName, elemQN I.tns ci, co.elemName, elemQN I.tns co,
+  ⟨m.opName, m.doc, ci.elemName, ci.elemName, elemQN I.tns ci, co.elemName, elemQN I.tns co,
    m.faults.map fun f => ⟨(I.cls f).tn, ⟨(I.cls f).ns, (I.cls f).tn⟩⟩⟩
 
 def opTrace (I : IState) (m : Meth) : List String :=
@@ -816,7 +831,7 @@ def Doc.bindingDefined (d : Doc) (q : QN) : Bool :=
   d.declared q && q.ns == d.tns && d.bindings.any (fun m => m.name == q.loc)
 
 def TypeDef.refs (t : TypeDef) : List QN :=
-  t.base.toList ++ t.elems.map (·.type) ++ t.attrs.map (·.type)
+  t.base.toList ++ t.elems.map (·.type) ++ t.attrs.map (·.type) ++ t.dataBases
 
 def Schema.refs (s : Schema) : List QN := s.types.flatMap TypeDef.refs ++ s.elements.map (·.type)
 
@@ -901,7 +916,8 @@ def IState.wfCls (I : IState) (i : Nat) : Bool :=
   -- references point to earlier classes (the class graph is acyclic); base classes and attribute types are
   -- defined by a class of the dependency graph (member types are added by `complex_add` itself)
   (match c.ext with | none => true | some b => b < i && I.typeKeyOk b) &&
-  c.fields.all (fun f => if f.isAttr then f.inner < i && I.typeKeyOk f.inner else f.ty < i && I.refOk f.ty) &&
+  c.fields.all (fun f => if f.isAttr then f.inner < i && I.typeKeyOk f.inner
+                         else if f.isData then f.inner < i && I.refOk f.inner else f.ty < i && I.refOk f.ty) &&
   (c.kind == .complex || c.fields.isEmpty) &&
   (c.kind != .simple || c.ext.isSome)
 
